@@ -78,10 +78,10 @@ func init() {
 }
 
 type isoWorker struct {
-	cmd    *exec.Cmd
-	stdin  io.WriteCloser
-	stdout *bufio.Reader
-	stderr *strings.Builder
+	cmd     *exec.Cmd
+	stdin   io.WriteCloser
+	stdout  *bufio.Reader
+	stderr  *strings.Builder
 	replies chan isoReply
 	dead    chan struct{}
 }
